@@ -35,7 +35,7 @@ def P(pid, targets, bounded, text, note=None, level="proof", unverified=()):
                      unverified=list(unverified))
 
 
-P("C01", [f"{UT}:rlencode", f"{CR}:index_pixels"], "bounded/C01.py",
+P("C01", [f"{UT}:rlencode", f"{CR}:index_pixels", f"{TOP}:get"], "bounded/C01.py",
   "Proof core shared with C02 (index construction for every pixel column and chunking); create/write/read "
   "round trip through real HDF5 files is covered by the bounded tier (all small matrices x input forms x dtypes "
   "x metadata documents).",
@@ -51,13 +51,13 @@ P("C02", [f"{UT}:rlencode", f"{CR}:index_pixels", f"{CR}:index_bins"], "bounded/
 P("C03", [f"{RQ}:_comes_before", f"{RQ}:_contains", f"{RQ}:arg_prune_partition",
           f"{RQ}:CSRReader.get_spans", f"{RQ}:CSRReader.__call__",
           f"{RQ}:FillLowerRangeQuery2D.__init__", f"{RQ}:DirectRangeQuery2D.__init__",
-          f"{SEL}:_IndexingMixin._process_slice", f"{SEL}:_IndexingMixin._unpack_index"],
+          f"{SEL}:_IndexingMixin._process_slice", f"{SEL}:_IndexingMixin._unpack_index", f"{API}:matrix", f"{API}:Cooler.matrix"],
   "bounded/C03.py",
   "Proof: every obligation generated from the real source of the range-query engine (case split of "
   "FillLowerRangeQuery2D, CSRReader row loop with column mask and reflection, span pruning, slice normalisation) is "
   "discharged for all windows, all n, all chunk sizes; the exactly-once lemma C03-L1 is a postcondition of the real "
   "constructors over the contracts of get_spans and CSRReader.__call__.",
-  unverified=["api.matrix / Cooler.matrix (engine choice, output conversion)",
+  unverified=[
               "BaseRangeQuery2D.get/to_array/to_sparse_matrix/to_frame", "RangeSelector2D.__getitem__/fetch"])
 
 P("C04", [f"{RQ}:_region_to_extent", f"{UT}:parse_region", f"{UT}:get_binsize"], "bounded/C04.py",
@@ -95,19 +95,17 @@ P("C10", [f"{BAL}:_init", f"{BAL}:_binarize", f"{BAL}:_zero_diags", f"{BAL}:_zer
 P("C11", [f"{UT}:partition", f"{BAL}:_init", f"{BAL}:_zero_diags", f"{BAL}:_timesouterproduct"], "bounded/C11.py", "Proof core: util.partition tiles [start, stop) exactly for every step (used for the per-chromosome spans of cis-only balancing). Bounded stand-in for the rest.", level="other",
   unverified=["balance_cooler spans", "parallel.split/MultiplexDataPipe", "chunkgetter"])
 
-P("C12", [f"{RQ}:CSRReader.__call__"], "bounded/C12.py",
-  "Proof core: the pixel records a balanced query multiplies are exactly the stored ones (CSRReader.__call__ "
-  "contract, shared with C03); the weighting arithmetic of api.matrix is covered by the bounded tier (all windows "
-  "x weight columns with NaNs x output forms x conventions).", level="other",
-  unverified=["api.matrix weighting branches", "Cooler.matrix divisive default", "dump --balanced annotator"])
+P("C12", [f"{API}:matrix", f"{API}:Cooler.matrix", f"{RQ}:CSRReader.__call__"], "bounded/C12.py",
+  "Proof: api.matrix (sparse and dense outputs) multiplies every raw value by the weight of its own row bin and its own column bin from the selected column (reciprocals when divisive; rows from [i0,i1), columns from [j0,j1) also when the ranges differ, incl. the aliasing shortcut for equal ranges), refuses a missing column with ValueError, and builds the fill-lower engine iff asked with the window as bounding box (engine outputs by assumed model; their content is C03's exactly-once lemma and the CSRReader.__call__ contract, included). Cooler.matrix is proved to pass every option through, with the divisive default exactly for KR/VC/VC_SQRT when the caller passed None and fill_lower = symmetric-upper. The balanced pixel-table branch (annotate) and dump -b are covered by the bounded tier; NaN propagation through * and / is assumed (IEEE), not modelled.", level="other",
+  unverified=["api.matrix as_pixels+balance branch (annotate)", "dump --balanced annotator"])
 
 P("C13", [f"{ING}:_validate_pixels"], "bounded/C13.py", "Proof core: the default validator accepts a chunk iff it has no out-of-range id, no lower-triangle pixel (symmetric mode) and no in-chunk duplicate, raises BadInputError exactly otherwise, and returns the records unchanged (pandas duplicated/sort_values by assumed contract). The no-cooler-after-failure and frame clauses are covered by the bounded tier (fault injection at every chunk index).", level="other",
   unverified=["create() exceptional postcondition and frame (ghost HDF5 model not built)"])
 
-P("C14", [f"{SEL}:_IndexingMixin._process_slice"], "bounded/C14.py",
-  "Proof core: slice/scalar normalisation of every table selector for all integer bounds; row reads and annotate "
+P("C14", [f"{SEL}:_IndexingMixin._process_slice", f"{TOP}:get"], "bounded/C14.py",
+  "Proof core: slice/scalar normalisation of every table selector for all integer bounds, and the table read (get: rows lo..hi-1 of every requested plain column, labelled lo.., independent of the column selection, Series for a single name); enum decoding, the selectors' glue and annotate "
   "are covered by the bounded tier.", level="other",
-  unverified=["_tableops.get", "RangeSelector1D.__getitem__/fetch", "api.annotate"])
+  unverified=["_tableops.get enum/bytes decoding", "RangeSelector1D.__getitem__/fetch", "api.annotate"])
 
 P("C15", [f"{UT}:parse_cooler_uri"], "bounded/C15.py",
   "Proof core: URI splitting for all strings; file-level operations are explored by the bounded tier against a "
